@@ -607,33 +607,43 @@ Definition done_phase (ph : phase) : Prop :=
 Lemma quiet_not_done ph : quiet_phase ph -> done_phase ph -> False.
 Proof. destruct ph; cbn; auto. Qed.
 
-(** [c] has installed (event [eI] of [pre]); of the targets [ts], those not in [pend]
-    have had a KDrainBegin with timeout [drt] since *)
-Definition hwit (pre : trace) (c : nat) (ts pend : list nat) (drt : N) : Prop :=
+(** a Drain call of [t] that began for command [c]: an event [eD] of [p2]; in the state [sD]
+    before it (the events [before] and those of [p2] up to [eD] have run) [c] was among the
+    candidates and still expected the Drain of [t] *)
+Definition begun_for (p : bool) (before p2 : trace) (c t : nat) (drt : N) : Prop :=
+  exists m1 eD m2 orig sD, p2 = m1 ++ eD :: m2 /\ e_k eD = KDrainBegin t orig drt /\
+    run (step_gen p) init (before ++ m1) = Some sD /\
+    nmem c (candidates sD t (e_t eD) drt) = true /\ certain sD t c = true.
+
+(** [c] has installed (event [eI] of [pre]); of the targets [ts], for those not in [pend]
+    a Drain call with timeout [drt] has begun for [c] since *)
+Definition hwit (p : bool) (pre : trace) (c : nat) (ts pend : list nat) (drt : N) : Prop :=
   exists p1 eI p2 sv, pre = p1 ++ eI :: p2 /\ e_by eI = ACmd c /\ e_k eI = KInstall sv true /\
-    forall t, In t ts -> nmem t pend = true \/ exists eD orig, In eD p2 /\ e_k eD = KDrainBegin t orig drt.
+    forall t, In t ts -> nmem t pend = true \/ begun_for p (p1 ++ [eI]) p2 c t drt.
 
-Definition hist (pre : trace) (s : state) : Prop :=
+Definition hist (p : bool) (pre : trace) (s : state) : Prop :=
   forall c cm old, nget (cmds s) c = Some cm -> c_repl cm = Some (Some old) -> done_phase (c_phase cm) ->
-  hwit pre c (lb_targets s old) (c_pending cm) (c_drt cm).
+  hwit p pre c (lb_targets s old) (c_pending cm) (c_drt cm).
 
-Lemma hwit_more pre e c ts pend pend' drt :
-  hwit pre c ts pend drt ->
-  (forall t, nmem t pend = true -> nmem t pend' = true \/ exists orig, e_k e = KDrainBegin t orig drt) ->
-  hwit (pre ++ [e]) c ts pend' drt.
+Lemma hwit_more p pre s e c ts pend pend' drt :
+  run (step_gen p) init pre = Some s ->
+  hwit p pre c ts pend drt ->
+  (forall t, nmem t pend = true -> nmem t pend' = true \/
+     exists orig, e_k e = KDrainBegin t orig drt /\ nmem c (candidates s t (e_t e) drt) = true /\ certain s t c = true) ->
+  hwit p (pre ++ [e]) c ts pend' drt.
 Proof.
-  intros (p1 & eI & p2 & sv & -> & Hby & Hk & Hall) Hp.
+  intros Hrun (p1 & eI & p2 & sv & -> & Hby & Hk & Hall) Hp.
   exists p1, eI, (p2 ++ [e]), sv. split; [rewrite <- app_assoc; reflexivity|]. split; [exact Hby|]. split; [exact Hk|].
-  intros t Ht. destruct (Hall t Ht) as [Hm|(eD & orig & Hin & HkD)].
-  - destruct (Hp t Hm) as [Hm'|(orig & HkD)]; [left; exact Hm'|].
-    right. exists e, orig. split; [apply in_or_app; right; left; reflexivity|exact HkD].
-  - right. exists eD, orig. split; [apply in_or_app; left; exact Hin|exact HkD].
+  intros t Ht. destruct (Hall t Ht) as [Hm|(m1 & eD & m2 & orig & sD & E & HkD & RD & HcD & HceD)].
+  - destruct (Hp t Hm) as [Hm'|(orig & HkD & HcD & HceD)]; [left; exact Hm'|].
+    right. exists p2, e, [], orig, s. split; [reflexivity|]. split; [exact HkD|]. split; [|split; assumption].
+    rewrite <- app_assoc. exact Hrun.
+  - right. exists m1, eD, (m2 ++ [e]), orig, sD. split; [rewrite E, <- app_assoc; reflexivity|].
+    split; [exact HkD|]. split; [exact RD|split; assumption].
 Qed.
 
-Lemma hwit_same pre e c ts pend drt : hwit pre c ts pend drt -> hwit (pre ++ [e]) c ts pend drt.
-Proof. intros H. eapply hwit_more; [exact H|]. intros t Ht; left; exact Ht. Qed.
-
-Lemma hwit_install pre e c ts drt sv : e_by e = ACmd c -> e_k e = KInstall sv true -> hwit (pre ++ [e]) c ts ts drt.
+Lemma hwit_install p pre e c ts drt sv :
+  e_by e = ACmd c -> e_k e = KInstall sv true -> hwit p (pre ++ [e]) c ts ts drt.
 Proof.
   intros Hby Hk. exists pre, e, [], sv. split; [reflexivity|]. split; [exact Hby|]. split; [exact Hk|].
   intros t Ht. left. apply nmem_In. exact Ht.
@@ -655,21 +665,24 @@ Proof.
 Qed.
 
 Lemma step_hist p pre s e s' :
-  dinv s -> invK s -> hist pre s -> step_gen p s e = Some s' -> hist (pre ++ [e]) s'.
+  run (step_gen p) init pre = Some s ->
+  dinv s -> invK s -> hist p pre s -> step_gen p s e = Some s' -> hist p (pre ++ [e]) s'.
 Proof.
-  intros [Hok Hall] HK Hh Hs. pose proof (step_ext _ _ _ _ Hs) as Hext. pose proof (step_shape _ _ _ _ Hs) as Hsh.
+  intros Hrun [Hok Hall] HK Hh Hs. pose proof (step_ext _ _ _ _ Hs) as Hext. pose proof (step_shape _ _ _ _ Hs) as Hsh.
   (* an old record that is carried over, its pending list possibly shrunk by a Drain call that begins now *)
   assert (Hkeep : forall c cm old pend',
              nget (cmds s) c = Some cm -> c_repl cm = Some (Some old) -> done_phase (c_phase cm) ->
-             (forall t, nmem t (c_pending cm) = true -> nmem t pend' = true \/ exists orig, e_k e = KDrainBegin t orig (c_drt cm)) ->
-             hwit (pre ++ [e]) c (lb_targets s' old) pend' (c_drt cm)).
+             (forall t, nmem t (c_pending cm) = true -> nmem t pend' = true \/
+                exists orig, e_k e = KDrainBegin t orig (c_drt cm) /\
+                             nmem c (candidates s t (e_t e) (c_drt cm)) = true /\ certain s t c = true) ->
+             hwit p (pre ++ [e]) c (lb_targets s' old) pend' (c_drt cm)).
   { intros c cm old pend' Hc Hr Hd Hp.
     pose proof (all_nget _ _ _ _ Hall Hc) as (_ & Hhas & _).
     rewrite (lb_targets_ext _ _ _ Hext (Hhas _ Hr)).
-    eapply hwit_more; [exact (Hh _ _ _ Hc Hr Hd)|exact Hp]. }
+    eapply hwit_more; [exact Hrun|exact (Hh _ _ _ Hc Hr Hd)|exact Hp]. }
   assert (Hkeep0 : forall c cm old,
              nget (cmds s) c = Some cm -> c_repl cm = Some (Some old) -> done_phase (c_phase cm) ->
-             hwit (pre ++ [e]) c (lb_targets s' old) (c_pending cm) (c_drt cm)).
+             hwit p (pre ++ [e]) c (lb_targets s' old) (c_pending cm) (c_drt cm)).
   { intros c cm old Hc Hr Hd. apply Hkeep; try assumption. intros t Ht; left; exact Ht. }
   intros k cmk old.
   destruct Hsh as [Ec _|c cm cm' Hby Hc Ec R _ _|c cm' Hc Ec _ _ Q _ _|c cm cm' dt drt fa _ Hc _ Ec P _ _ _ _
@@ -699,7 +712,8 @@ Proof.
     change (c_drt (set_pending cm (nremove t (c_pending cm)))) with (c_drt cm).
     apply Hkeep; try assumption.
     intros t0 Ht0. destruct (Nat.eq_dec t0 t) as [->|Hne].
-    + right. exists orig. rewrite (candidates_drt _ _ _ _ _ _ HK Hg Hm). exact Hk.
+    + right. exists orig. rewrite (candidates_drt _ _ _ _ _ _ HK Hg Hm). split; [exact Hk|]. split; [exact Hm|].
+      unfold certain. rewrite Hg. destruct (c_phase cm); try exact Ht0. reflexivity.
     + left. apply nmem_nremove_other; assumption.
   - intros Hg. specialize (Ex k). destruct (nget (cmds s) k) as [cm|] eqn:Hg0.
     + destruct Ex as (cm' & G & (P & Q & Rp & Edrt)). rewrite G in Hg; injection Hg as <-. intros Hr Hd.
@@ -707,19 +721,21 @@ Proof.
     + rewrite Ex in Hg; discriminate.
 Qed.
 
-Lemma hist_init : hist [] init.
+Lemma hist_init p : hist p [] init.
 Proof. intros c cm old H; discriminate. Qed.
 
 Lemma run_hist p tr pre s s' :
-  dinv s -> invKAB s -> hist pre s -> run (step_gen p) s tr = Some s' -> hist (pre ++ tr) s'.
+  run (step_gen p) init pre = Some s ->
+  dinv s -> invKAB s -> hist p pre s -> run (step_gen p) s tr = Some s' -> hist p (pre ++ tr) s'.
 Proof.
-  revert pre s; induction tr as [|e tr IH]; intros pre s Hd Hk Hh; cbn [run].
+  revert pre s; induction tr as [|e tr IH]; intros pre s Hrun Hd Hk Hh; cbn [run].
   - intros E; injection E as <-. rewrite app_nil_r. exact Hh.
   - destruct (step_gen p s e) as [s1|] eqn:E; [|discriminate]. intros R.
-    change (e :: tr) with ([e] ++ tr). rewrite app_assoc. apply IH with s1; [| | |exact R].
+    change (e :: tr) with ([e] ++ tr). rewrite app_assoc. apply IH with s1; [| | | |exact R].
+    + rewrite run_app, Hrun. cbn [run]. rewrite E. reflexivity.
     + exact (step_dinv _ _ _ _ Hd E).
     + exact (step_invKAB _ _ _ _ Hk E).
-    + exact (step_hist _ _ _ _ _ Hd (proj1 Hk) Hh E).
+    + exact (step_hist _ _ _ _ _ Hrun Hd (proj1 Hk) Hh E).
 Qed.
 
 (** ** Reading the trace: durations, replaced balancer, its targets *)
@@ -810,7 +826,10 @@ Lemma deploy_return_drains_begun_gen p pre eR post s c eP dt drt fa eS svc ro lb
   In eS pre -> e_by eS = ACmd c -> e_k eS = KSlot svc ro lb (Some old) ->
   In eN pre -> e_k eN = KLbNew old ts ->
   exists p1 eI p2 sv, pre = p1 ++ eI :: p2 /\ e_by eI = ACmd c /\ e_k eI = KInstall sv true /\
-    forall t, In t ts -> exists eD orig, In eD p2 /\ e_k eD = KDrainBegin t orig drt.
+    forall t, In t ts ->
+      exists m1 eD m2 orig sD, p2 = m1 ++ eD :: m2 /\ e_k eD = KDrainBegin t orig drt /\
+        run (step_gen p) init (p1 ++ eI :: m1) = Some sD /\
+        nmem c (candidates sD t (e_t eD) drt) = true /\ certain sD t c = true.
 Proof.
   intros Hrun HR HinP HP HinS HbyS HS HinN HN.
   change (pre ++ eR :: post) with (pre ++ [eR] ++ post) in Hrun.
@@ -819,7 +838,7 @@ Proof.
   cbn [run] in R1. destruct (step_gen p s1 eR) as [s2'|] eqn:E; [|discriminate]. clear R1.
   assert (D1 : dinv s1) by (eapply run_dinv; [apply dinv_init|exact R0]).
   assert (K1 : invKAB s1) by (eapply run_invKAB; [apply invKAB_init|exact R0]).
-  pose proof (run_hist _ _ _ _ _ dinv_init invKAB_init hist_init R0) as H1. cbn [app] in H1.
+  pose proof (run_hist p _ [] _ _ eq_refl dinv_init invKAB_init (hist_init p) R0) as H1. cbn [app] in H1.
   destruct (slot_repl _ _ _ _ _ _ _ _ _ R0 HinS HbyS HS) as (cm & Hc & Hr).
   destruct (params_drt _ _ _ _ _ _ _ _ R0 HinP HP) as (cm0 & Hc0 & Hdrt). rewrite Hc in Hc0; injection Hc0 as <-.
   pose proof (deploy_return_phase _ _ _ _ _ _ _ D1 E HR Hc Hr) as Hph.
@@ -827,9 +846,9 @@ Proof.
   destruct (H1 _ _ _ Hc Hr Hd) as (p1 & eI & p2 & sv & Epre & HbyI & HkI & Hall).
   exists p1, eI, p2, sv. repeat split; try assumption.
   intros t Ht. rewrite (lbnew_targets _ _ _ _ _ _ R0 HinN HN) in Hall.
-  destruct (Hall t Ht) as [Hm|(eD & orig & HinD & HkD)].
+  destruct (Hall t Ht) as [Hm|(m1 & eD & m2 & orig & sD & E2 & HkD & RD & HcD & HceD)].
   - exfalso. destruct (proj1 (proj2 K1) _ _ Hc) as [Pe|(o & Po)]; [rewrite Pe in Hm; discriminate|congruence].
-  - exists eD, orig. rewrite <- Hdrt. split; assumption.
+  - exists m1, eD, m2, orig, sD. rewrite <- Hdrt. rewrite <- app_assoc in RD. repeat split; assumption.
 Qed.
 
 (** ** (T1 ii / T2) following one Drain call forward through the trace *)
@@ -1156,7 +1175,10 @@ Lemma deploy_return_drains_begun pre eR post s c eP dt drt fa eS svc ro lb old e
   In eS pre -> e_by eS = ACmd c -> e_k eS = KSlot svc ro lb (Some old) ->
   In eN pre -> e_k eN = KLbNew old ts ->
   exists p1 eI p2 sv, pre = p1 ++ eI :: p2 /\ e_by eI = ACmd c /\ e_k eI = KInstall sv true /\
-    forall t, In t ts -> exists eD orig, In eD p2 /\ e_k eD = KDrainBegin t orig drt.
+    forall t, In t ts ->
+      exists m1 eD m2 orig sD, p2 = m1 ++ eD :: m2 /\ e_k eD = KDrainBegin t orig drt /\
+        run step init (p1 ++ eI :: m1) = Some sD /\
+        nmem c (candidates sD t (e_t eD) drt) = true /\ certain sD t c = true.
 Proof. exact (deploy_return_drains_begun_gen false pre eR post s c eP dt drt fa eS svc ro lb old eN ts). Qed.
 
 Lemma owned_drain_ended pre eR post s c r p1 eB p2 sB t orig timeout :
@@ -1210,4 +1232,34 @@ Lemma joint_settled pre eR post st sf c r p1 eB p2 sB t orig timeout :
 Proof.
   intros Hrt Hrf HR Epre RB HB Ho Hcand Hcert.
   exact (joint_settled_gen false _ _ _ _ _ _ _ _ _ _ _ _ _ _ Hrt Hrf HR Epre RB HB Ho (begin_owners_single _ _ _ _ _ Hcand Hcert)).
+Qed.
+
+(** (T1) together: a redeploy that returns Ok has, after its install, begun a Drain call for
+    every target of the replaced balancer, as a candidate that still expected that Drain; and where
+    it was the only candidate and the target was not already draining, that call has ended *)
+Lemma deploy_return_drains_done pre eR post s c eP dt drt fa eS svc ro lb old eN ts :
+  run step init (pre ++ eR :: post) = Some s ->
+  e_k eR = KReturn c CROk ->
+  In eP pre -> e_k eP = KParams c dt drt fa ->
+  In eS pre -> e_by eS = ACmd c -> e_k eS = KSlot svc ro lb (Some old) ->
+  In eN pre -> e_k eN = KLbNew old ts ->
+  exists p1 eI p2 sv, pre = p1 ++ eI :: p2 /\ e_by eI = ACmd c /\ e_k eI = KInstall sv true /\
+    forall t, In t ts ->
+      exists m1 eD m2 orig sD, p2 = m1 ++ eD :: m2 /\ e_k eD = KDrainBegin t orig drt /\
+        run step init (p1 ++ eI :: m1) = Some sD /\
+        nmem c (candidates sD t (e_t eD) drt) = true /\ certain sD t c = true /\
+        (orig <> TDraining -> candidates sD t (e_t eD) drt = [c] ->
+         exists q1 eE q2 o n, m2 = q1 ++ eE :: q2 /\ goid (e_by eE) = goid (e_by eD) /\ e_k eE = KStateSet t o n /\
+           (forall e', In e' q1 -> goid (e_by e') = goid (e_by eD) -> forall t' o' n', e_k e' <> KStateSet t' o' n') /\
+           (exists eC, In eC q1 /\ goid (e_by eC) = goid (e_by eD) /\ e_k eC = KDrainCancelRest t)).
+Proof.
+  intros Hrun HR HinP HP HinS HbyS HS HinN HN.
+  destruct (deploy_return_drains_begun _ _ _ _ _ _ _ _ _ _ _ _ _ _ _ _ Hrun HR HinP HP HinS HbyS HS HinN HN)
+    as (p1 & eI & p2 & sv & Epre & HbyI & HkI & Hall).
+  exists p1, eI, p2, sv. repeat split; try assumption.
+  intros t Ht. destruct (Hall t Ht) as (m1 & eD & m2 & orig & sD & E2 & HkD & RD & HcD & HceD).
+  exists m1, eD, m2, orig, sD. repeat split; try assumption.
+  intros Ho Hcand.
+  assert (Epre' : pre = (p1 ++ eI :: m1) ++ eD :: m2) by (rewrite Epre, E2, <- app_assoc; reflexivity).
+  exact (owned_drain_ended _ _ _ _ _ _ _ _ _ _ _ _ _ Hrun HR Epre' RD HkD Ho Hcand HceD).
 Qed.
